@@ -27,6 +27,7 @@ ITEMS = ["MAX_MSG_QUEUE_SIZE", "msg_queue_resume_size", "parser_queue_full", "pr
          "ErrInfo append shape", "handle_error output_size shape", "parser constructed with the cap",
          "HTTPException branch output_size shape", "StreamResponse._start resets the writer when _prepare_headers raises",
          "_settle_declined_upgrade called from finish_response and from start after the payload check",
+         "_settle_declined_upgrade records the remaining tail before pausing / resuming",
          "data_received closing guard queues nothing",
          "finish_response refuses a response object other than the started one; _write_headers records the started one"]
 
@@ -244,6 +245,21 @@ def generate() -> str:
     sd = core.find_function(WP, "_settle_declined_upgrade", cls="RequestHandler")
     if not any(isinstance(n, ast.Call) and isinstance(n.func, ast.Attribute) and n.func.attr == "set_upgraded" for n in ast.walk(sd)):
         raise TranslatorError("_settle_declined_upgrade: does not switch the parser back (set_upgraded)")
+
+    # ... and it records what is left of the tail (`self._upgraded = upgraded; self._message_tail = tail`) BEFORE it
+    # decides to pause / resume reading: _resume_msg_queue_reading() looks at the tail, and nothing calls it again
+    # (seeded change C05-10: a headless tail of >= read_bufsize bytes left the transport paused for good)
+    def _line_of(pred, what):
+        hits = [n.lineno for n in ast.walk(sd) if pred(n)]
+        if len(hits) != 1:
+            raise TranslatorError(f"_settle_declined_upgrade: expected exactly one {what}, found {len(hits)}")
+        return hits[0]
+    l_up = _line_of(lambda n: isinstance(n, ast.Assign) and ast.unparse(n) == "self._upgraded = upgraded", "`self._upgraded = upgraded`")
+    l_tail = _line_of(lambda n: isinstance(n, ast.Assign) and ast.unparse(n) == "self._message_tail = tail", "`self._message_tail = tail`")
+    l_res = _line_of(lambda n: isinstance(n, ast.Call) and _is_self_attr(n.func, "_resume_msg_queue_reading"), "self._resume_msg_queue_reading()")
+    l_pause = _line_of(lambda n: isinstance(n, ast.Call) and _is_self_attr(n.func, "_pause_msg_queue_reading"), "self._pause_msg_queue_reading()")
+    if not max(l_up, l_tail) < min(l_res, l_pause):
+        raise TranslatorError("_settle_declined_upgrade: the remaining tail must be recorded before reading is paused / resumed")
 
     def _calls_settle(fn):
         return [n for n in ast.walk(fn) if isinstance(n, ast.Call) and _is_self_attr(n.func, "_settle_declined_upgrade")]
